@@ -124,6 +124,16 @@ pub fn handle(mode: &str, j: &J) -> J {
             json!({"n": words.len(), "bits": bits})
         }
         "json" => crate::sweep::json_case(j["text"].as_str().unwrap()),
+        "ftext" => {
+            // text of floats as serde_json::to_string and as Rust's Display print them (oracle for C14)
+            let bits: Vec<u64> = j["bits"].as_array().unwrap().iter().map(|b| u64::from_str_radix(b.as_str().unwrap(), 16).unwrap()).collect();
+            let js: Vec<String> = bits.iter().map(|b| {
+                let f = f64::from_bits(*b);
+                serde_json::Number::from_f64(f).map(|n| serde_json::to_string(&n).unwrap()).unwrap_or_else(|| "null".to_string())
+            }).collect();
+            let ds: Vec<String> = bits.iter().map(|b| format!("{}", f64::from_bits(*b))).collect();
+            json!({"json": js, "display": ds})
+        }
         "int_sweep" => {
             let lo = j["lo"].as_i64().unwrap();
             let hi = j["hi"].as_i64().unwrap();
